@@ -64,8 +64,8 @@ BOUNDS = {
         "block_body_len": 5,
     },
     "thorough": {
-        "nodes": {"fragvars": 10, "sdl": 8},
-        "single_gap_layouts_up_to_nodes": {"fragvars": 9, "sdl": 7},
+        "nodes": {"fragvars": 9, "sdl": 7},
+        "single_gap_layouts_up_to_nodes": {"fragvars": 8, "sdl": 6},
         "depth": 4,
         "seeds": 20,
         "all_layouts_max_gaps": 5,
